@@ -1,3 +1,4 @@
+import Nanite.Model.Basic
 /-
 Model of `nanite.preproc.autosort`, `check_order`, `available` and the acceptance part of
 `nanite.preproc.apply` (src/nanite/preproc.py).  Core Lean only.
@@ -17,12 +18,6 @@ inductive Err where
   | keyErr
   | valueErr
   deriving DecidableEq, Repr
-
-instance {ε β : Type} [DecidableEq ε] [DecidableEq β] : DecidableEq (Except ε β)
-  | .ok a, .ok b => if h : a = b then isTrue (by rw [h]) else isFalse (by intro h'; injection h'; contradiction)
-  | .error a, .error b => if h : a = b then isTrue (by rw [h]) else isFalse (by intro h'; injection h'; contradiction)
-  | .ok _, .error _ => isFalse (by intro h; cases h)
-  | .error _, .ok _ => isFalse (by intro h; cases h)
 
 structure Table (α : Type) where
   steps : List α            -- identifiers in definition order (PREPROCESSORS)
